@@ -1,0 +1,21 @@
+//go:build verif
+
+// Machine-checked contracts for package zipslicer (comment-only; see /verif/DESIGN.md).
+
+package zipslicer
+
+//@ func FindDirectory
+//@   property C11
+//@   nopanic
+//@   requires r != nil
+//@
+//@ func Read
+//@   property C11
+//@   nopanic
+//@   requires r != nil
+//@   allocbound 0 size + 65536
+//@
+//@ func ReadWithDirectory
+//@   property C11
+//@   nopanic
+//@   allocbound 0 262144
